@@ -100,7 +100,7 @@ def client_reads(tier, rng):
             clock = C.VClock()
             kind0 = C.CLIENTS[name][0]
             line = C.Line(clock, kind0)
-            cfg = {"retries": 0, "roe": 0, "roi": 0}
+            cfg = {"retries": 0, "roe": 0, "roi": 0} if j % 6 else {"retries": 2, "roe": 1, "roi": 0}
             with C.Patches(clock, line):
                 kind, client, dec = C.make_client(name, cfg)
                 t = C.Transaction(name, kind, client, dec, clock, line, rng)
@@ -116,7 +116,12 @@ def client_reads(tier, rng):
                     t.run(uid, ["nothing"])
                     t.run(uid, ["own"])
                     hist = [["nothing"], ["nothing"], ["own"]]
-                x = t.run(uid, [rng.choice(["own", "ownExc"])], exact=1)
+                if j % 6 == 0:
+                    # an unanswered transmission inside the call, then an answered retransmission: the reads of the answered attempt are
+                    # judged like a first attempt (the prediction is worked out once per call and must not drift between attempts)
+                    x = t.run(uid, ["nothing"] * rng.randint(1, 2) + [rng.choice(["own", "ownExc"])], exact=1)
+                else:
+                    x = t.run(uid, [rng.choice(["own", "ownExc"])], exact=1)
                 x["history"] = hist
                 try:
                     client.close()
@@ -197,7 +202,7 @@ def run(prop, tier):
     rep.notes["self_test"] = [sv["st"]["clauses"], sv2["st2"]["clauses"]]
     rep.sample({"pdu_event": ev[5], "adu_event": ev[-3]})
     x = ok[0]["txns"][0]
-    rep.sample({"client": ok[0]["client"], "script": x["script"], "reads": x["reads"], "frame_pdu": bytes(x["fed"][0][0]["pdu"]).hex()})
+    rep.sample({"client": ok[0]["client"], "script": x["script"], "reads": x["reads"], "frame_pdu": bytes(x["fed"][-1][0]["pdu"]).hex() if x["fed"] and x["fed"][-1] else ""})
     rep.cov["rule"] = ("cases = (a) get_response_pdu_size() of every request class that predicts, over the whole quantity domain (bits 1..2000, "
                        "registers 1..125, write quantities, read/write 1..125 x {1,2,121}, every diagnostic sub-function), compared by TLC with the "
                        "length of the response the data model prescribes and with the real executed response; (b) per-framing response and "
